@@ -62,7 +62,7 @@ def wf_ssb(routines: list[list[dict]]) -> str | None:
     for ri, r in enumerate(routines):
         for oi, op in enumerate(r):
             c = op["code"]
-            if not is_identifier(c) or c in KEYWORDS:
+            if not is_identifier(c) or (c in KEYWORDS and c not in TEXT_SWITCHES):
                 return f"opcode name {c!r}"
             if c in JUMP_IDX:
                 if len(op["params"]) != JUMP_IDX[c] + 1:
